@@ -154,6 +154,7 @@ class Network:
         """
         with self.graph_lock:
             key_material = peer.public_key.key_to_bin()
+            services = set(services)  # The services may be a one-shot iterable: only consume them once.
             if key_material not in self.services_per_peer:
                 self.services_per_peer[key_material] = set(services)
             else:
